@@ -61,6 +61,16 @@ CLAIMS = {
         note=TB + 'Any source up to 1 MiB (object-size bound). That the bytes skipWhitespace consumes are only whitespace or comment bodies is proved as "stops at first non-trivia"/"no newline in a comment", '
              'not as a full classification of every skipped byte.',
         ref='DESIGN.md §4 C15'),
+    'C20': dict(
+        text='Proof of the updater decision logic: parseSemVer (unbounded string length up to 64 bytes, loop contracts on both loops) never raises, is valid only if the first component is a number, '
+             'and each component is the std::stoi value of a maximal digit run in order; compareSemVer equals the sign of the numeric lexicographic order over all 2^192 pairs (lemmas: antisymmetric, transitive, '
+             'invalid compares equal); hasLatest is true iff both parse and current >= latest; the gate of performSelfUpdate reaches the download only if both versions parse and the release is strictly newer; '
+             'maybePrintNotice prints iff due, only after 72 h, only for a parsable strictly newer release, and stamps the window (lemma: never two notices within one window); checkForUpdatesIfDue does '
+             'nothing (no output, fetch, load or save) when BLOCH_NO_UPDATE_CHECK / CI / BLOCH_OFFLINE is set and prints at most one notice.',
+        note=TB + 'I/O (cache load/save, release fetch, stdin prompt, clock) are contract-only stubs (assumed); determinism of parseSemVer at call sites is an assumed clause justified by its proved frame; '
+             'std::stoi is modelled (<= 9 digits always fits). NOT covered: parseChecksum (istringstream/getline scanning is outside the lowering; a substring-match defect there is visible only to the native oracle), '
+             'persistence of the cache between processes, download/extract/replace steps.',
+        ref='DESIGN.md §4 C20'),
 }
 
 NA = {
